@@ -492,9 +492,14 @@ def gen_create_ops(repo):
             if isinstance(v, ast.Call) and isinstance(v.func, ast.Attribute) and v.func.attr == "join":
                 names[t] = "N"          # the new path: dirname(target) joined with the metafile's own name
                 continue
-            if isinstance(v, (ast.Subscript, ast.Call)) and all(
-                    not isinstance(c, ast.Call) or (isinstance(c.func, ast.Attribute) and c.func.attr in ("dirname", "basename"))
-                    for c in ast.walk(v)):
+            # any other binding: an expression whose only calls are `<x>.load(<target>)` (reads the metafile: RLoadT) and
+            # os.path.dirname / basename (pure), e.g. `name = pyben.load(target)["info"]["name"]`
+            calls = [c for c in ast.walk(v) if isinstance(c, ast.Call)]
+            loads = [c for c in calls if isinstance(c.func, ast.Attribute) and c.func.attr == "load" and len(c.args) == 1
+                     and not c.keywords and sym(c.args[0]) == "T"]
+            pure_calls = [c for c in calls if isinstance(c.func, ast.Attribute) and c.func.attr in ("dirname", "basename")]
+            if isinstance(v, (ast.Subscript, ast.Call, ast.BinOp)) and len(loads) + len(pure_calls) == len(calls) and len(loads) <= 1:
+                rops.extend("RLoadT" for _ in loads)
                 continue
             rops.append("RUnknown")
             continue
